@@ -20,14 +20,14 @@ EXTENDS Naturals, Sequences, FiniteSets, TLC, Json, IOUtils, SequencesExt
 Procs == ndJsonDeserialize(IOEnv.YPROCS)
 
 CredsOf(svc) ==
-  CASE svc = "yorkie"  -> {"none", "bogus", "keyA"}
-    [] svc = "admin"   -> {"none", "bogus", "pubkeyB", "tokenA", "secretA"}
+  CASE svc = "yorkie"  -> {"none", "bogus", "keyA", "revokedA"}
+    [] svc = "admin"   -> {"none", "bogus", "pubkeyB", "tokenA", "secretA", "revokedSecretA"}
     [] svc = "cluster" -> {"none", "bogus", "secret"}
 
 \* credentials that authenticate nobody
 InvalidCred(svc, c) ==
-  \/ svc = "yorkie"  /\ c = "bogus"
-  \/ svc = "admin"   /\ c \in {"none", "bogus", "pubkeyB"}
+  \/ svc = "yorkie"  /\ c \in {"bogus", "revokedA"}       \* revokedA: A's public key from before its keys were rotated
+  \/ svc = "admin"   /\ c \in {"none", "bogus", "pubkeyB", "revokedSecretA"}
   \/ svc = "cluster" /\ c \in {"none", "bogus"}
 
 \* admin procedures that authenticate by password instead of a token
